@@ -19,6 +19,7 @@ type c09Op struct {
 	Yields   int    `json:"yields,omitempty"`
 	Children int    `json:"children,omitempty"` // task submits further tasks
 	PauseNs  int    `json:"pause,omitempty"`    // submitter sleeps before the op
+	WaitNext bool   `json:"wait_next,omitempty"` // kind "pair": the first task blocks until the second (added right behind it) is done
 }
 
 type c09Resize struct {
@@ -114,6 +115,20 @@ func c09Gen(r *simrt.RNG, tier string) interface{} {
 		p.Ending = "setworkers"
 	}
 	p.LIFO = r.Bool(0.15)
+	if r.Bool(0.15) {
+		// one pair of back-to-back submissions where the first task waits for the second:
+		// needs a second worker to be woken although the queue was not empty
+		if p.Workers < 2 {
+			p.Workers = 2
+		}
+		for i := range p.Resizes {
+			if p.Resizes[i].Count < 2 {
+				p.Resizes[i].Count = 2
+			}
+		}
+		si := r.Intn(len(p.Submitters))
+		p.Submitters[si] = append(p.Submitters[si], c09Op{Kind: "pair", WaitNext: true, PauseNs: r.Intn(30)})
+	}
 	return p
 }
 
@@ -177,6 +192,12 @@ func c09Shrink(pi interface{}) []interface{} {
 	return out
 }
 
+type c09Dep struct {
+	mu   simsync.Mutex
+	cond *simsync.Cond
+	done bool
+}
+
 type c09State struct {
 	tp       *pool.ThreadPool
 	runs     []int
@@ -189,9 +210,11 @@ type c09State struct {
 }
 
 type c09Task struct {
-	st *c09State
-	id int
-	op c09Op
+	st      *c09State
+	id      int
+	op      c09Op
+	waitFor *c09Dep // block until this dependency is done
+	signal  *c09Dep // mark this dependency done at the end
 }
 
 func (t *c09Task) Run(tid uint64) error {
@@ -210,6 +233,20 @@ func (t *c09Task) Run(tid uint64) error {
 	for i := 0; i < t.op.Children; i++ {
 		st.submit(c09Op{Kind: "add"})
 	}
+	if t.waitFor != nil {
+		simrt.Count("fault_task_blocks_on_queued_task")
+		t.waitFor.mu.Lock()
+		for !t.waitFor.done {
+			t.waitFor.cond.Wait()
+		}
+		t.waitFor.mu.Unlock()
+	}
+	if t.signal != nil {
+		t.signal.mu.Lock()
+		t.signal.done = true
+		t.signal.cond.Broadcast()
+		t.signal.mu.Unlock()
+	}
 	st.running--
 	st.done[t.id] = true
 	if t.op.Fail {
@@ -222,6 +259,26 @@ func (t *c09Task) HandleError(e error) {
 	t.st.handled[t.id]++
 }
 
+func (st *c09State) submitPair(op c09Op) {
+	d := &c09Dep{}
+	d.cond = simsync.NewCond(&d.mu)
+	for k := 0; k < 2; k++ {
+		id := st.nextID
+		st.nextID++
+		st.runs = append(st.runs, 0)
+		st.done = append(st.done, false)
+		st.handled = append(st.handled, 0)
+		st.fail = append(st.fail, false)
+		t := &c09Task{st: st, id: id, op: c09Op{Kind: "add"}}
+		if k == 0 {
+			t.waitFor = d
+		} else {
+			t.signal = d
+		}
+		st.tp.AddTask(t)
+	}
+}
+
 func (st *c09State) submit(op c09Op) {
 	id := st.nextID
 	st.nextID++
@@ -229,7 +286,7 @@ func (st *c09State) submit(op c09Op) {
 	st.done = append(st.done, false)
 	st.handled = append(st.handled, 0)
 	st.fail = append(st.fail, op.Fail)
-	st.tp.AddTask(&c09Task{st, id, op})
+	st.tp.AddTask(&c09Task{st: st, id: id, op: op})
 }
 
 func c09Run(pi interface{}) {
@@ -253,6 +310,10 @@ func c09Run(pi interface{}) {
 			for _, op := range ops {
 				if op.PauseNs > 0 {
 					simtime.Sleep(simtime.Duration(op.PauseNs))
+				}
+				if op.Kind == "pair" {
+					st.submitPair(op)
+					continue
 				}
 				n := 1
 				if op.Kind == "burst" {
@@ -330,6 +391,13 @@ func c09Run(pi interface{}) {
 		}
 	case "setworkers":
 		k := 1 + simrt.Choose(3)
+		for _, ops := range p.Submitters {
+			for _, op := range ops {
+				if op.Kind == "pair" && k < 2 {
+					k = 2 // a task that waits for another one needs a second worker
+				}
+			}
+		}
 		tp.SetWorkerCount(k, true)
 		lastCount = k
 		simrt.WaitQuiescent()
